@@ -81,3 +81,58 @@ package object
 //@   property C29
 //@   pureeffect
 //@   defines err == nil ==> sigOK(req)
+
+// ---- C31: an object received through Replicate is handed to local validation+storage
+// only if (1) the signature over the object ID verified under a key type matching the
+// declared scheme, (2) the server's own key is among the container's nodes, (3) the
+// request's signing key is among the container's nodes of the last two epochs.
+// The two membership facts are established inside the callbacks handed to the container
+// node iterators (closures Replicate$1 / Replicate$2); each closure keeps the invariant
+// "flag ==> fact" of its captured flag, the flags start false, and the iterators are
+// assumed to change the flags only by calling the callback, with keys of that container.
+
+//@ ghost pred objectSignatureVerified() bool
+//@ ghost pred ownKeyAmongContainerNodes() bool
+//@ ghost pred signerKeyAmongContainerNodes() bool
+
+//@ callrule replicate_signature_fact in (*Server).Replicate
+//@   property C31
+//@   callee (crypto.PublicKey).Verify
+//@   requires [key_type_matches_declared_scheme] (req.Signature.Scheme == 0 ==> isType(self, ecdsa.PublicKey)) && (req.Signature.Scheme == 1 ==> isType(self, ecdsa.PublicKeyRFC6979)) && (req.Signature.Scheme == 2 ==> isType(self, ecdsa.PublicKeyWalletConnect))
+//@   defines result ==> objectSignatureVerified()
+
+//@ callrule replicate_own_key_fact in (*Server).Replicate$1
+//@   property C31
+//@   callee (object.FSChain).IsOwnPublicKey
+//@   defines result ==> ownKeyAmongContainerNodes()
+//@ func (*Server).Replicate$1
+//@   property C31
+//@   ensures [flag_only_with_fact] deref(serverInCnr) ==> ownKeyAmongContainerNodes()
+
+//@ callrule replicate_signer_key_fact in (*Server).Replicate$2
+//@   property C31
+//@   callee bytes.Equal
+//@   defines result ==> signerKeyAmongContainerNodes()
+//@ func (*Server).Replicate$2
+//@   property C31
+//@   ensures [flag_only_with_fact] deref(clientInCnr) ==> signerKeyAmongContainerNodes()
+
+//@ callrule replicate_server_membership_after_iteration in (*Server).Replicate
+//@   property C31
+//@   callee (object.FSChain).ForEachContainerNodePublicKey
+//@   defines serverInCnr ==> ownKeyAmongContainerNodes()
+//@ callrule replicate_client_membership_after_iteration in (*Server).Replicate
+//@   property C31
+//@   callee (object.FSChain).ForEachContainerNodePublicKeyInLastTwoEpochs
+//@   defines clientInCnr ==> signerKeyAmongContainerNodes()
+
+//@ callrule replicate_store_only_from_container_nodes in (*Server).Replicate
+//@   property C31
+//@   callee (object.Storage).*, (object.Handlers).*, (object.ClientConstructor).*, (*engine.StorageEngine).*
+//@   requires [object_signature_verified] objectSignatureVerified()
+//@   requires [server_in_container] ownKeyAmongContainerNodes()
+//@   requires [signer_in_container_in_last_two_epochs] signerKeyAmongContainerNodes()
+
+//@ func (*Server).Replicate
+//@   property C31
+//@   opt immutable=Signature.Scheme,ReplicateRequest.Signature
